@@ -50,6 +50,7 @@ class BlockPartition(object):
         # Store attributes
         self.d = d
         self.list_of_constraints = list()
+        self._list_of_orthogonality_constraints = list()
         self.blocks_dict = dict()
         self.counter = BlockPartition.counter
 
@@ -121,12 +122,19 @@ class BlockPartition(object):
     def add_partition_constraints(self):
         """
         Formulate the list of orthogonality constraints induced by the partitioning.
-        The list is formulated anew at each call (at each solve), hence does not grow with the number of solves.
+        Those constraints are formulated anew at each call (at each solve), replacing the ones formulated by the
+        previous call, hence their number does not grow with the number of solves.
+        Constraints added through `add_constraint` are kept.
 
         """
-        self.list_of_constraints = list()
+        previous_ids = {id(constraint) for constraint in self._list_of_orthogonality_constraints}
+        self.list_of_constraints = [constraint for constraint in self.list_of_constraints
+                                    if id(constraint) not in previous_ids]
+        self._list_of_orthogonality_constraints = list()
         for xi_decomposed in self.blocks_dict.values():
             for xj_decomposed in self.blocks_dict.values():
                 for k in range(self.d):
                     for l in range(k):
-                        self.add_constraint(xi_decomposed[k] * xj_decomposed[l] == 0)
+                        constraint = (xi_decomposed[k] * xj_decomposed[l] == 0)
+                        self._list_of_orthogonality_constraints.append(constraint)
+                        self.add_constraint(constraint)
